@@ -159,8 +159,11 @@ static void search_callback(void *arg, ares_status_t status, size_t timeouts,
     return;
   }
 
-  /* We have no more domains to search, return an appropriate response. */
-  if (mystatus == ARES_ENOTFOUND && squery->ever_got_nodata) {
+  /* We have no more domains to search, return an appropriate response.  If any
+   * name along the way existed without data, report that rather than the
+   * status of the last name tried (ARES_ENOTFOUND, or ARES_ESERVFAIL /
+   * ARES_EREFUSED for a single label), same as ares_getaddrinfo(). */
+  if (squery->ever_got_nodata) {
     end_squery(squery, ARES_ENODATA, NULL);
     return;
   }
